@@ -240,7 +240,7 @@ var substBytes = [][]byte{{0}, {0xFF}, {0xE2}, {0xF0, 0x9F}, {'\\'}, {'\n'}, {'"
 func Harvest(args []string) {
 	fs := flag.NewFlagSet("lexers harvest", flag.ExitOnError)
 	out := fs.String("out", "", "trace file")
-	repo := fs.String("repo", "/repo", "repository")
+	repo := fs.String("repo", reg.Repo(), "repository")
 	seed := fs.Int64("seed", 1, "seed")
 	per := fs.Int("per", 200, "literals per family (sampled by seed)")
 	muts := fs.Int("muts", 6, "mutations per literal")
